@@ -9,6 +9,11 @@ def build(P):
     from contracts import dispatcher as D
     D.externals(P.reg)
     P.verify(D.TD + "TaskDispatcher.branch_has_terminated", D.td_branch_has_terminated_contract(), tags=("C06",), timeout=30)
+    D.launch_externals(P.reg)
+    from contracts import records as R
+    R.abstract_arn(P.reg)
+    P.verify(D.ET + "asl_service_rpcmessage", D.rpcmessage_contract(), tags=("C06",), timeout=30)
+    P.verify(D.ET + "asl_service_states_startExecution", D.start_execution_launch_contract(), tags=("C06",), timeout=30)
     P.native("failing-branches", "natives.c06:failures", kind="bounded", clause="C06:", timeout=900,
              bound="8 scenario machines (uncaught failure with a task sibling; Catch with ResultPath on the Parallel; Fail state "
                    "ending a branch; error caught inside a branch with a fallback task, alone and with a failing sibling; Map with "
